@@ -41,12 +41,12 @@ def _run_case(ctx, case):
     if rng.random() < 0.2:
         # atoms numbered sparsely / negatively (e.g. a fragment cut out of a larger graph): the result must still be a renaming onto 0..n-1
         import networkx as nx
-        off = rng.choice([1, 100, -50, 10 ** 9])
+        off = rng.choice([1, 100, -50, 10 ** 6])
         g0 = nx.relabel_nodes(g0, {v: off + 3 * v for v in g0.nodes}, copy=True)
         ctx.count("cov_noncontiguous_input_labels")
     g0.graph["_rv_graph_attr"] = "kept?"
     if rng.random() < 0.25:
-        molprops.add_foreign_attributes(ctx, g0, rng)
+        molprops.add_foreign_attributes(ctx, g0, rng, any_value=True)
     ctx.count("cov_foreign_attribute")
     ctx.evaluations += 1
     ok, r = molprops.guarded(ctx, case, c.canonicalize_molecule, g0)
